@@ -45,6 +45,8 @@ struct Scenario {
     /// a further task tells the actor that everything stamped <= T has been streamed to the object store
     /// (WalActorHandle::truncate), concurrently with the writers; writes stamped > T must still survive
     truncate: Option<u64>,
+    /// a writer whose write was reported failed sends the identical write (same update, same stamp) once more
+    retry: bool,
 }
 
 impl Scenario {
@@ -56,7 +58,7 @@ impl Scenario {
     }
     fn json(&self, schedule: &[u32]) -> serde_json::Value {
         json!({"group_commit_max_entries": self.gce, "rotate_every": self.rotate_every, "writers": self.writers,
-               "faults": self.faults.iter().map(|(i, f)| json!([i, f.name()])).collect::<Vec<_>>(), "advances": self.advances, "shutdown": self.shutdown, "truncate": self.truncate, "schedule": schedule})
+               "faults": self.faults.iter().map(|(i, f)| json!([i, f.name()])).collect::<Vec<_>>(), "advances": self.advances, "shutdown": self.shutdown, "truncate": self.truncate, "retry": self.retry, "schedule": schedule})
     }
     fn shape(&self) -> String {
         format!(
@@ -64,7 +66,7 @@ impl Scenario {
             if self.gce == 1 { "1" } else { ">1" },
             match self.rotate_every { 0 => "never", 1 => "every-entry", _ => "every-2nd" },
             self.faults.iter().map(|(_, f)| f.name()).collect::<Vec<_>>().join(","),
-            if self.shutdown { " +shutdown" } else if self.truncate.is_some() { " +truncate" } else { "" }
+if self.shutdown { " +shutdown" } else if self.truncate.is_some() { " +truncate" } else if self.retry { " +retry" } else { "" }
         )
     }
 }
@@ -116,12 +118,16 @@ fn run_once(sc: &Scenario, ch: &mut Chooser) -> Outcome {
                 recs.push(rec.clone());
                 let h = handle.clone();
                 let n = *n;
+                let retry = sc.retry;
                 let id = sched.add(
                     &format!("writer{w}"),
                     Box::pin(async move {
                         for k in 0..n {
                             let ts = (w as u64 + 1) * 10 + k as u64 + 1;
-                            let r = h.write_durable(Arc::new(delta(ts)), ts).await;
+                            let mut r = h.write_durable(Arc::new(delta(ts)), ts).await;
+                            if r.is_err() && retry {
+                                r = h.write_durable(Arc::new(delta(ts)), ts).await;
+                            }
                             rec.borrow_mut().push(WriteRec { ts, ok: r.is_ok(), err: r.err().map(|e| e.to_string()).unwrap_or_default() });
                         }
                     }),
@@ -239,6 +245,7 @@ fn main() {
             advances: r["advances"].as_u64().unwrap() as u32,
             shutdown: r["shutdown"].as_bool().unwrap_or(false),
             truncate: r["truncate"].as_u64(),
+            retry: r["retry"].as_bool().unwrap_or(false),
         };
         let schedule: Vec<u32> = r["schedule"].as_array().unwrap().iter().map(|x| x.as_u64().unwrap() as u32).collect();
         let mut ch = polex::replay_prefix(&schedule);
@@ -269,14 +276,18 @@ fn main() {
     for gce in [1usize, 2, 8] {
         for rotate_every in [1usize, 2, 0] {
             for w in &writer_sets {
-                bases.push(Scenario { gce, rotate_every, writers: w.clone(), faults: vec![], advances: 2, shutdown: false, truncate: None });
+                bases.push(Scenario { gce, rotate_every, writers: w.clone(), faults: vec![], advances: 2, shutdown: false, truncate: None, retry: false });
             }
             // graceful shutdown racing with two writers (the last batch is flushed by the shutdown path)
-            bases.push(Scenario { gce, rotate_every, writers: vec![1, 1], faults: vec![], advances: 2, shutdown: true, truncate: None });
+            bases.push(Scenario { gce, rotate_every, writers: vec![1, 1], faults: vec![], advances: 2, shutdown: true, truncate: None, retry: false });
             // a truncation request (everything stamped <= 15 is streamed: writer 0's stamps are 11, 12; writer 1's 21, 22)
             // racing with the writers: whichever order the entries reached the files in, the ones above 15 must survive
-            bases.push(Scenario { gce, rotate_every, writers: vec![1, 1], faults: vec![], advances: 2, shutdown: false, truncate: Some(15) });
-            bases.push(Scenario { gce, rotate_every, writers: vec![2, 1], faults: vec![], advances: 2, shutdown: false, truncate: Some(15) });
+            bases.push(Scenario { gce, rotate_every, writers: vec![1, 1], faults: vec![], advances: 2, shutdown: false, truncate: Some(15), retry: false });
+            bases.push(Scenario { gce, rotate_every, writers: vec![2, 1], faults: vec![], advances: 2, shutdown: false, truncate: Some(15), retry: false });
+            // a writer that is told "failed" sends the identical write again (what a client library does): whatever it is told
+            // the second time is what counts
+            bases.push(Scenario { gce, rotate_every, writers: vec![1, 1], faults: vec![], advances: 2, shutdown: false, truncate: None, retry: true });
+            bases.push(Scenario { gce, rotate_every, writers: vec![2], faults: vec![], advances: 2, shutdown: false, truncate: None, retry: true });
         }
     }
     // fault plans: every single fault position x kind (quick), plus all pairs (thorough) over the first
